@@ -115,7 +115,18 @@ func gen(r *hx.Rand, tier string, i int) string {
 			}
 		}
 		cfgS := ""
+		forceHonest := false
+		var cfgHeights []int
+		for _, h := range chain {
+			if h.newCfg != nil {
+				cfgHeights = append(cfgHeights, h.height)
+			}
+		}
 		switch x := r.Intn(100); {
+		case len(cfgHeights) >= 2 && x < 30: // name a REPLACED configuration and bring enough of its members' signatures
+			lastCfg = cfgHeights[r.Intn(len(cfgHeights)-1)]
+			cfgS = fmt.Sprintf("L%d", lastCfg)
+			forceHonest = true
 		case x < 62:
 			cfgS = fmt.Sprintf("L%d", lastCfg)
 		case x < 70: // stale / wrong LastConfigBlockNum
@@ -178,6 +189,9 @@ func gen(r *hx.Rand, tier string, i int) string {
 		var sigs []string
 		accept := fieldsOK
 		flavour := r.Intn(100)
+		if forceHonest {
+			flavour = 0
+		}
 		switch {
 		case nn == 0: // empty peer map: nothing can be listed
 			accept = accept && used.c == 4294967295
